@@ -59,10 +59,21 @@ def run_group(group, tier, seed):
     for h in harnesses:
         cmd += ["--harness", h]
     res["cmd"] = "cd %s && CARGO_NET_OFFLINE=true %s" % (KDIR, " ".join(cmd))
+    # two checks started at the same time share the harness crate's target directory: serialise the Kani runs
+    # (concurrent `cargo kani` builds overwrite each other's goto binaries and end as a tool crash = UNDECIDED)
+    lockf = None
+    try:
+        import fcntl
+        os.makedirs(os.path.join(VERIF, "build"), exist_ok=True)
+        lockf = open(os.path.join(VERIF, "build", "kani_%s.lock" % os.path.basename(KDIR)), "w")
+        fcntl.flock(lockf, fcntl.LOCK_EX)
+    except Exception:
+        lockf = None
     try:
         p = subprocess.run(cmd, cwd=KDIR, env=env, stdout=subprocess.PIPE, stderr=subprocess.STDOUT, text=True,
                            timeout=g.get("timeout", 3000))
         out = p.stdout
+        if lockf: lockf.close()
     except subprocess.TimeoutExpired as e:
         res["status"] = "undecided"; res["note"] = "kani timeout"; res["wall_s"] = time.time() - t0
         return res
